@@ -119,6 +119,9 @@ def run(pid, tier):
             a = bp["args"]
             ev.append(dict(ev="Bump", b=nums(a["biofuel"]), f=nums(a["feed"]), maxB=nums(a["max_biofuel"]), maxF=nums(a["max_feed"]),
                            b2=nums(bp["out_biofuel"]), f2=nums(bp["out_feed"]), dom=True))
+        for rnd_ in (2, 3):
+            if 1 in by_round and rnd_ in by_round and by_round[1]["consts"]["add"]["crops"] and by_round[rnd_]["consts"]["add"]["crops"]:
+                ev.append(dict(ev="Harvest", c1=nums(by_round[1]["series"]["crops"]), c=nums(by_round[rnd_]["series"]["crops"])))
         if bp and 3 in by_round:
             s3 = by_round[3]["series"]
             ev.append(dict(ev="Charged", b2=nums(bp["out_biofuel"]), f2=nums(bp["out_feed"]), cb=nums(s3["biofuel"]), cf=nums(s3["feed"])))
